@@ -88,6 +88,9 @@ func crashProp(c Case, x *h.Ctx) *h.Violation {
 		if cur >= 0 && strings.HasSuffix(a.Path, ".wal") {
 			if a.Op == "write" {
 				lastWrite = n
+				if a.Synced {
+					lastSync = n // O_SYNC / O_DSYNC descriptor: the write is its own fsync
+				}
 			}
 			if a.Op == "fsync" {
 				lastSync = n
